@@ -6,7 +6,7 @@
 (* accessor fails; a strict prefix of an encoding a matching accessor      *)
 (* would accept fails with the end-of-input class.                         *)
 (***************************************************************************)
-EXTENDS CborData
+EXTENDS CborData, SkipProp
 
 VConcat(kind, b) == [k |-> kind, cat |-> b, borrowed |-> TRUE]     \* drained bytes_iter / str_iter: concatenation of the chunks
 \* bytes_iter (mj = 2) / str_iter (mj = 3), drained
@@ -18,7 +18,7 @@ ChunkWalk(buf, p, mj, acc) ==
    ELSE IF h.st = "bad" THEN <<"err">>
    ELSE IF IsBreak(h) THEN <<"ok", acc, p + 1>>
    ELSE IF h.major # mj \/ h.indef THEN <<"err">>
-   ELSE IF ~IsSmall(h.arg) \/ p + h.hl + ToNat(h.arg) > Len(buf) THEN
+   ELSE IF ~IsSmall(h.arg) \/ ToNat(h.arg) > Len(buf) - p - h.hl THEN
         (IF mj = 2 \/ Utf8Prefix(SubSeq(buf, p + h.hl + 1, Len(buf))) THEN <<"eoi">> ELSE <<"err">>)
    ELSE LET b == SubSeq(buf, p + h.hl + 1, p + h.hl + ToNat(h.arg)) IN
         IF mj = 3 /\ ~ValidUtf8(b) THEN <<"err">> ELSE ChunkWalk(buf, p + h.hl + ToNat(h.arg), mj, acc \o b)
@@ -31,8 +31,21 @@ IterAcc(mj, buf, p) ==
    ELSE LET r == ChunkWalk(buf, p + 1, mj, <<>>) IN
         IF r[1] = "ok" THEN {Ok(VConcat(kind, r[2]), r[3])} ELSE IF r[1] = "eoi" THEN {Err("eoi")} ELSE {Err("*")}
 
+(* array_iter / map_iter drained with an element type that consumes exactly one item of any kind: the number of elements   *)
+(* (pairs) and the position, which is the end of the container - behind the break of an indefinite one.                     *)
+RECURSIVE CountUntilBreak(_, _)
+CountUntilBreak(buf, p) == IF IsBreak(HeadAt(buf, p)) THEN 0 ELSE 1 + CountUntilBreak(buf, ItemEnd(buf, p))
+VCount(n) == [k |-> "count", n |-> n]
+ContIterAcc(mj, buf, p) ==
+   LET h == HeadAt(buf, p)  r == Scan(buf, p, FALSE) IN
+   IF h.st # "ok" \/ h.major # mj THEN {Err("*")}
+   ELSE IF r.e = Trunc THEN {Err("*")}
+   ELSE IF r.e = Bad THEN {Free}
+   ELSE LET items == IF h.indef THEN CountUntilBreak(buf, p + 1) ELSE (IF mj = 4 THEN 1 ELSE 2) * Cap(h.arg) IN
+        {Ok(VCount(IF mj = 4 THEN items ELSE items \div 2), r.e)} \cup (IF ~r.t THEN {Err("*")} ELSE {})     \* (invalid UTF-8 inside: the element may refuse)
+
 AccNames == IntTypes \cup {"char", "bool", "null", "undefined", "simple", "f16", "f32", "f64", "bytes", "str", "bytes_iter", "str_iter",
-                           "array", "map", "tag", "datatype"}
+                           "array", "map", "tag", "datatype", "array_iter", "map_iter"}
 AccExpect(name, halfOn, buf, p) ==
    CASE name \in IntTypes  -> IntAcc(name, buf, p)
      [] name = "char"      -> CharAcc(buf, p)
@@ -45,6 +58,8 @@ AccExpect(name, halfOn, buf, p) ==
      [] name = "str_iter"  -> IterAcc(3, buf, p)
      [] name = "array"     -> LenAcc(4, buf, p)
      [] name = "map"       -> LenAcc(5, buf, p)
+     [] name = "array_iter" -> ContIterAcc(4, buf, p)
+     [] name = "map_iter"  -> ContIterAcc(5, buf, p)
      [] name = "tag"       -> TagAcc(buf, p)
      [] name = "datatype"  -> DatatypeAcc(buf, p)
 
@@ -72,6 +87,6 @@ Compatible(name, mj, info) ==
    CASE name \in IntTypes -> mj \in {0, 1} [] name = "char" -> mj = 0
      [] name \in {"bool", "null", "undefined", "simple", "f16", "f32", "f64"} -> mj = 7
      [] name \in {"bytes", "bytes_iter"} -> mj = 2 [] name \in {"str", "str_iter"} -> mj = 3
-     [] name = "array" -> mj = 4 [] name = "map" -> mj = 5 [] name = "tag" -> mj = 6 [] name = "datatype" -> TRUE
+     [] name \in {"array", "array_iter"} -> mj = 4 [] name \in {"map", "map_iter"} -> mj = 5 [] name = "tag" -> mj = 6 [] name = "datatype" -> TRUE
 NoCrossShape(buf) == \A name \in AccNames : (\E x \in AccExpect(name, TRUE, buf, 0) : x.p = "ok") => Compatible(name, ShapeOf(buf), 0)
 =============================================================================
